@@ -33,6 +33,10 @@ def run(ctx: Ctx, chk) -> None:
     chk.run_rule(tasks1, ctx)
     chk.run_rule(save_total, ctx)
     chk.run_rule(saver_esc, ctx)
+    # the periodic and the final save cannot fail because of what the registry contains (same rule as C15)
+    from .c15 import inplace3
+
+    chk.run_rule(inplace3, ctx)
     from .orderedio import ordered_io
 
     chk.run_rule(ordered_io, ctx)
